@@ -641,6 +641,63 @@ def only_close_paren_comments_moved(tl, expected, got):
     return without(expected) == without(got)
 
 
+def independent_comments(src):
+    """Comments of a text by the documented rule, without the project's lexer: `//` to the end of the line
+    (trimmed); `/* .. */` (doc if it starts with `/**` and is longer than `/**/`): the text on the line of
+    the opener is text; on every further line ONE leading `*` is decoration, the rest is text; lines are
+    trimmed, empty ones dropped, the rest joined by one blank. String literals are skipped."""
+    out, i, n = [], 0, len(src)
+    while i < n:
+        c = src[i]
+        if c == '"':
+            i += 1
+            while i < n and src[i] != '"' and src[i] != "\n":
+                i += 2 if src[i] == "\\" else 1
+            i += 1
+        elif src.startswith("//", i):
+            j = src.find("\n", i)
+            j = n if j < 0 else j
+            out.append(("line", src[i + 2:j].strip()))
+            i = j
+        elif src.startswith("/*", i):
+            j = src.find("*/", i + 2)
+            if j < 0:
+                break
+            whole = src[i:j + 2]
+            doc = len(whole) > 4 and whole[2] == "*"
+            body = whole[3:-2] if doc else whole[2:-2]
+            lines = body.split("\n")
+            parts = [lines[0].strip()]
+            for l in lines[1:]:
+                l = l.lstrip()
+                parts.append((l[1:] if l.startswith("*") else l).strip())
+            out.append(("doc" if doc else "block", " ".join(x for x in parts if x)))
+            i = j + 2
+        else:
+            i += 1
+    return out
+
+
+def with_independent_texts(tl, src):
+    """Token list with the comment texts replaced by the independent reading; None if the lexer and the
+    independent scanner disagree on the comments themselves or on a text."""
+    ind = independent_comments(src)
+    k, out, diffs = 0, [], []
+    for t in tl:
+        if t[0] in COMMENT_KINDS:
+            if k >= len(ind) or ind[k][0] != t[0]:
+                return None, [("structure", t, ind[k] if k < len(ind) else None)]
+            if ind[k][1].split() != t[5].split():
+                diffs.append((t[0], t[5], ind[k][1]))
+            out.append(t[:5] + (ind[k][1],))
+            k += 1
+        else:
+            out.append(t)
+    if k != len(ind):
+        return None, [("structure", None, ind[k])]
+    return out, diffs
+
+
 def judge(cases):
     """Formats every case once and twice with the real code; sets case['fail'] (None = property holds)."""
     f1 = run_h([f"fmt {c['width']} {hexs(c['src'])}" for c in cases])
@@ -657,8 +714,15 @@ def judge(cases):
             else:
                 fail = "skip-unparseable"; c["detail"] = a1[:120]
         else:
-            ci, co = expected_words(ti), words_of(to)
-            if ci != co:
+            # comment texts by the documented rule, independent of the lexer's post-processing
+            ti2, d_in = with_independent_texts(ti, c["src"])
+            to2, d_out = with_independent_texts(to, o)
+            if ti2 is None or to2 is None or d_in or d_out:
+                fail = "lexer-text"
+                c["detail"] = f"the lexer's comment text differs from the documented rule (one decoration star per continuation line): input {d_in}, output {d_out}"
+                c["lexer_diffs"] = [list(map(str, x)) for x in (d_in or []) + (d_out or [])]
+            ci, co = expected_words(ti2 or ti), words_of(to2 or to)
+            if fail is None and ci != co:
                 if len(co) < len(ci):
                     fail = "dropped"
                 elif len(co) > len(ci):
@@ -669,7 +733,7 @@ def judge(cases):
                 else:
                     fail = "changed"
                 c["detail"] = f"comments expected (source order, import lines moved as wholes): {ci}; comments out: {co}"
-            if fail is None:
+            if fail in (None,):
                 if a2.startswith("panic"):
                     fail = "reformat-panic"; c["detail"] = uh(a2[6:])
                 elif not a2.startswith("ok "):
@@ -704,6 +768,11 @@ def classify(ctxs, c):
     blank). C09-F2 and C09-F5 are fixed: a dropped comment or any other non-idempotence anywhere is a
     VIOLATION."""
     k = c["fail"]
+    if k == "lexer-text" and c.get("lexer_diffs") and all(
+            len(d) == 3 and d[0] in ("block", "doc") and d[2].startswith("*") and d[1].split() == d[2][1:].split()
+            for d in c["lexer_diffs"]):
+        # C09-F9: the only difference is ONE star at the very start of a block/doc comment's text
+        return "C09-F9"
     if k == "reordered" and (c.get("close_paren_only") or c.get("key") in ctxs["reordered_set"]):
         return "C09-F6"
     if k == "nonidempotent" and (only_empty_line_comments_added(c.get("out") or "", c.get("out2") or "")
@@ -735,7 +804,8 @@ def module_phase(ctx):
                    "ctx4": "LISTFAMILY " + "/".join(map(str, k)), "ctx2": "LIST", "src": m} for k, m in listfamily.modules()]
     except Exception as ex:      # pragma: no cover
         shared_note = f"unavailable: {ex!r}"
-    cases = judge(make_cases(bases, basetoks, select) + multi + pairs + shared)
+    texts = text_family()
+    cases = judge(make_cases(bases, basetoks, select) + multi + pairs + shared + texts)
     stats = collections.Counter()
     known_hits = collections.Counter()
     reported = 0
@@ -757,7 +827,8 @@ def module_phase(ctx):
             what = {"dropped": "a comment is lost by parse+print", "duplicated": "a comment is duplicated",
                     "reordered": "comments change their relative order", "changed": "comment text changes",
                     "nonidempotent": "format(format(m)) != format(m)", "reformat-error": "the formatter's output no longer parses",
-                    "reformat-panic": "formatting the formatter's output panics", "in-panic": "formatting panics"}[f]
+                    "reformat-panic": "formatting the formatter's output panics", "in-panic": "formatting panics",
+                    "lexer-text": "the comment text the lexer hands to the parser differs from the documented rule"}[f]
             ctx.violation(f"formatter breaks C09: {what} (comment between `{c['ctx2']}`, context `{c['ctx4']}`)",
                           {"protocol": "fmt", "width": c["width"], "source": c["src"], "failure": f,
                            "context": c["ctx4"], "formatted": c.get("out"), "reformatted": c.get("out2"),
@@ -800,7 +871,7 @@ def module_phase(ctx):
                            "broken": "hypothesis `Agree commentKey d` on the printer's documents"}, no_input=True)
             break
     return {"module_cases": len(cases), "module_verdicts": dict(stats), "known_finding_hits": dict(known_hits),
-            "import_sections_equal_to_model": n_imports, "multi_comment_import_cases": len(multi), "pair_cases": len(pairs), "shared_listfamily_cases": len(shared),
+            "import_sections_equal_to_model": n_imports, "multi_comment_import_cases": len(multi), "pair_cases": len(pairs), "shared_listfamily_cases": len(shared), "comment_text_family_cases": len(texts),
             "bases_hand": nhand, "bases_repo_pieces": len(pieces), "real_documents_laid_out_by_model": len(docs),
             "agree_on_real_documents": dict(agree_stats)}, cases, samples
 
@@ -1034,6 +1105,31 @@ def fragment_phase(ctx, n):
             ctx.violation(f"comma separated list loses or reorders comments: handed out {got}, text has {want}",
                           {"protocol": "list", "text": t, "impl": a})
             break
+    # (a3) comment text normalisation: real lexer vs Model/CommentText.lean postProcess
+    pieces = ["alpha", "*kwargs", "**u**", "*", "/x", "a/b", "x*", "* /", "", " ", "\t", "é", "w" * 30]
+    bodies = []
+    for _ in range(n // 2):
+        lines = []
+        for li in range(rng.range(1, 5)):
+            deco = rng.pick([" * ", " *", "*", "", "   ", "\t* ", " ** ", " * * "]) if li > 0 or rng.chance(1, 4) else " "
+            lines.append(deco + " ".join(rng.pick(pieces) for _ in range(rng.range(0, 4))) + rng.pick(["", " ", "  "]))
+        b = "\n".join(lines)
+        if b.startswith("*") or "*/" in b:
+            b = " " + b.replace("*/", "* /")
+        bodies.append(b)
+    timpl = run_h(["tok " + hexs("/*" + b + "*/") for b in bodies])
+    tmodel = run_d(["ctext " + hexs(b) for b in bodies])
+    nct = 0
+    for b, a, m in zip(bodies, timpl, tmodel):
+        tl = parse_tok_answer(a)
+        if len(tl) != 1 or tl[0][0] not in ("block", "doc"):
+            continue
+        nct += 1
+        if "t:" + hexs(tl[0][5]) != m:
+            ctx.violation("model/implementation disagreement on protocol ctext (Model/CommentText.lean postProcess vs lexer.rs post_process_block_comment)",
+                          {"protocol": "ctext", "body": b, "impl_text": tl[0][5], "model": uh(m[2:]) if m.startswith("t:") else m,
+                           "broken": "correspondence `ctext`; stripLine_reflowLine speaks about the model only"}, no_input=True)
+            break
     # (b) document of an expression: real create_doc vs Model/ExprDoc.lean, and its layout
     texts = [gen_expr_text(rng, rng.range(0, 4)) for _ in range(n)]
     widths = [rng.weighted([(100, 3), (rng.range(1, 30), 3), (rng.range(31, 80), 2)]) for _ in texts]
@@ -1070,8 +1166,59 @@ def fragment_phase(ctx, n):
                        "impl_text": uh(a.split(" ")[1]) if a.startswith("ok ") else None,
                        "model_text": uh(b.split(" ")[1]) if b.startswith("ok ") else None,
                        "broken": "correspondence `exprdoc`; docOf_ok / expression_layout_text speak about the model only"}, no_input=True)
-    return {"attachment_skeletons_compared": nskel, "list_productions_compared": nlists,
+    return {"attachment_skeletons_compared": nskel, "list_productions_compared": nlists, "comment_text_normalisations_compared": nct,
             "expression_documents_equal_to_model": ndocs, "of_which_with_member_access_or_call": nchains}, 2 * n + nlists
+
+
+def text_family():
+    """Round g: the comment-TEXT dimension. Texts that interact with the comment decoration and the re-flow
+    (words starting / ending with `*`, `/`, `* /`, a lone `*`, tabs, leading blanks, a word longer than the
+    line) x line / block / doc x member / statement position x (a) one-line comments whose length sweeps the
+    wrap boundary so that the wrap lands before every word, (b) hand-written multi-line comments with
+    ` * ` decoration, bare `*` lines, no decoration, tab indentation, trailing stars."""
+    cases = []
+    def add(label, member_c, stmt_c):
+        src = "class T {\n" + (f"  {member_c}\n" if member_c else "") + "  function f(): unit = {\n" + \
+              (f"    {stmt_c}\n" if stmt_c else "") + "    let x = 1;\n  }\n}\n"
+        cases.append({"base": -1, "gap": -1, "kind": "", "text": "textfamily", "width": 100, "key": None,
+                      "ctx4": "TEXT " + label, "ctx2": "TEXT", "src": src})
+    body = "alpha beta *kwargs gamma **union** delta * item epsilon /x zeta a/b eta * / theta star* iota"
+    long_word = "w" * 118
+    for k in range(0, 28):
+        pad = ("p" * k + " ") if k else ""
+        text = pad + body + " " + body
+        for kind in COMMENT_KINDS:
+            if kind == "line":
+                c = "// " + text + " ends */ here"
+            else:
+                c = ("/* " if kind == "block" else "/** ") + text + " */"
+            add(f"sweep {kind} member k={k}", c, None)
+            add(f"sweep {kind} stmt k={k}", None, c)
+    singles = ["*kwargs first", "**bold** text", "* bullet", "*", "x *", "ends with star*", "/slash first", "a * / b",
+               "\ttab\tinside", "   three leading blanks", long_word, "pre " + long_word + " post", "é 日本 *ü"]
+    for i, t in enumerate(singles):
+        for kind in COMMENT_KINDS:
+            c = ("// " + t) if kind == "line" else (("/* " if kind == "block" else "/** ") + t + " */")
+            add(f"single {kind} #{i}", c, c if i % 2 == 0 else None)
+    multis = [
+        "/*\n * *args are passed on,\n * **kwargs** too.\n * * binds tighter than +\n */",
+        "/**\n * *args are passed on,\n * **kwargs** too.\n */",
+        "/*\n *\n * text after an empty line\n *\n * more\n *\n */",
+        "/**\n * doc\n *\n * * bullet one\n * * bullet two\n */",
+        "/*\n  no decoration here\n  second plain line\n*/",
+        "/*\n\t* tab indented\n\t* *star word\n\t*/",
+        "/* first line text\n * second */",
+        "/* text **/",
+        "/** doc **/",
+        "/*\n * a/b and * / and x*\n */",
+        "/*   \n *    spaced    words   \n */",
+        "/*\n * " + long_word + "\n * *tail\n */",
+    ]
+    for i, c in enumerate(multis):
+        add(f"multi #{i} member", c, None)
+        add(f"multi #{i} stmt", None, c)
+        add(f"multi #{i} both", c, c)
+    return cases
 
 
 def regen_contexts():
@@ -1140,7 +1287,7 @@ def run(ctx):
         "samples": samples,
         "traces_validated_against_impl": n1 + n2 + n3 + n5 + extra.get("real_documents_laid_out_by_model", 0),
         "part_b_fragment_corollaries": partb,
-        "pending": ["layout-level idempotence as one theorem: needs (a) a proof that lexing the laid-out text returns the item sequence (builder-C05's Model/Lexer.lean is a byte-level longest-match lexer with a keyword table: a round trip over arbitrary identifier/operator adjacency was not attempted) and (b) a parser model for the comment-carrying fragment; today: `expression_layout_text` (layout = comment/token sequence at every width, now incl. member access, calls, dotted chains, argument lists) + token-level round trip with comments on the C08 fragment; document construction of if-else, match, lambdas, tuples, blocks/statements, declarations, type arguments on members; comments on operator tokens in the C08 round trip; C09-F4 (pinned test), rest of C09-F6 (needs a trailing-comment slot)"],
+        "pending": ["layout-level idempotence as one theorem: needs (a) a proof that lexing the laid-out text returns the item sequence (builder-C05's Model/Lexer.lean is a byte-level longest-match lexer with a keyword table: a round trip over arbitrary identifier/operator adjacency was not attempted) and (b) a parser model for the comment-carrying fragment; today: `expression_layout_text` (layout = comment/token sequence at every width, now incl. member access, calls, dotted chains, argument lists) + token-level round trip with comments on the C08 fragment; document construction of if-else, match, lambdas, tuples, blocks/statements, declarations, type arguments on members; comments on operator tokens in the C08 round trip; whole-comment `post (reflow (post t)) = post t` (today per line); C09-F9 (lexer.rs, modelled by C05); C09-F4 (pinned test), rest of C09-F6 (needs a trailing-comment slot)"],
         "partial_theorems": {"format_idempotent_fragment_partial / roundtrip_with_comments_partial / format_idempotent_with_comments_partial": "C08's decidable side condition RT e; token level; comments on atoms (normal form the parser produces since fix a0babc7); atom table without duplicates",
                              "lineComment/multilineComment_content_equal": "content read modulo the repeated leaders `// ` and ` * ` (commentKey)"},
     })
@@ -1149,7 +1296,7 @@ def run(ctx):
                         "char::is_whitespace = Unicode White_Space as listed in Model/Doc.lean isWs",
                         "the lexer's comment tokens are taken as the definition of `the comments of a text` (oracle uses the real token producer on input and output)"]
     return ctx.finish(res, trusted=common.TRUSTED_COMMON + [
-        "hand-written models Model/Doc.lean (all of prettier.rs), Model/CommentQueue.lean (peek/consume, create_comment_reference, comment prepending), Model/Imports.lean (import grouping/merging/sorting and import_to_document); Model/Attach.lean (outer vs leftmost attachment of preceding comments, keep_parenthesis_comments on the skeleton, normal form), Model/ExprDoc.lean (create_doc for identifiers/int literals/unary/binary/member access/calls/dotted chains/argument lists with comments); builder-C08's Model/Fmt.lean for the fragment corollaries",
+        "hand-written models Model/Doc.lean (all of prettier.rs), Model/CommentQueue.lean (peek/consume, create_comment_reference, comment prepending), Model/Imports.lean (import grouping/merging/sorting and import_to_document); Model/CommentText.lean (post_process_block_comment + the printer's continuation line), Model/Attach.lean (outer vs leftmost attachment of preceding comments, keep_parenthesis_comments on the skeleton, normal form), Model/ExprDoc.lean (create_doc for identifiers/int literals/unary/binary/member access/calls/dotted chains/argument lists with comments); builder-C08's Model/Fmt.lean for the fragment corollaries",
         "hooks samlang_printer::verif_hooks (layout/expand/flatten/module_doc) and samlang_parser::verif_hooks_queue",
         "not modelled (oracle only): the per-production comment attachment of source_parser.rs and the per-construct document construction of source_printer.rs; for the latter the hypothesis Agree(commentKey) of layout_preserves_text is evaluated on the real documents at run time",
         "vlib/c09_contexts.json: token contexts of the open findings C09-F2/C09-F3 (reference enumeration on the unchanged tree)"])
